@@ -39,6 +39,10 @@ def rec_expr(d):
     return "[" + ", ".join(f"{k} |-> {json.dumps(v) if isinstance(v, str) else v}" for k, v in d.items()) + "]"
 
 
+#: choices for the wildcard "all" (global vary_rounds)
+ALL_KWS = [kw(varyK="int", varyV=1), kw(varyK="pct", varyV=10), kw(varyK="pct", varyV=100), kw(varyK="int", varyV=0)]
+
+
 #: model scheme -> (real base handler factory, rounds record or None, greedy, keyword choices, foreign cost values)
 def scheme_table():
     import passlib.hash as H
@@ -67,7 +71,7 @@ def consts_for(T, names, emit, **extra):
     norounds = rec_expr(P(0, 0, UNSET))
     facts = "[" + ", ".join(f'{n} |-> [hasRounds |-> {"TRUE" if T[n]["P"] else "FALSE"}, P |-> {rec_expr(T[n]["P"]) if T[n]["P"] else norounds}, '
                             f'greedy |-> {"TRUE" if T[n]["greedy"] else "FALSE"}]' for n in names) + "]"
-    kwc = "[" + ", ".join(f'{n} |-> {{{", ".join(rec_expr(k) for k in T[n]["kws"])}}}' for n in names) + "]"
+    kwc = "[" + ", ".join([f'{n} |-> {{{", ".join(rec_expr(k) for k in T[n]["kws"])}}}' for n in names] + [f'all |-> {{{", ".join(rec_expr(k) for k in ALL_KWS)}}}']) + "]"
     rv = "[" + ", ".join(f'{n} |-> {{{", ".join(str(v) for v in T[n]["vals"])}}}' for n in names) + "]"
     c = dict(Facts=R(facts), Cats=set(CATS), KwChoices=R(kwc), RoundVals=R(rv), Pws={"p1", "p2"}, MaxOps=10, MaxStore=3, DoEmit=emit,
              ExSchemeSeqs=R("{<<>>}"), ExDefs={"unset"}, ExDeps=R('{<<"unset", {}>>}'), ExWithOpts=False, FlagNames=R('{"md5_crypt"}') if not emit else R('{}'))
@@ -106,10 +110,13 @@ class Replayer:
             for fld, name in (("minA", "min_rounds"), ("maxA", "max_rounds"), ("def", "default_rounds")):
                 if k[fld] != UNSET:
                     d[f"{pre}{o['name']}__{name}"] = k[fld] if rnd.random() < .7 else str(k[fld])
+            vkey = f"{pre}{o['name']}__vary_rounds"
+            if o["name"] == "all" and o["cat"] == "none" and rnd.random() < .5:
+                vkey = "vary_rounds"              # the bare global spelling
             if k["varyK"] == "int":
-                d[f"{pre}{o['name']}__vary_rounds"] = k["varyV"]
+                d[vkey] = k["varyV"]
             elif k["varyK"] == "pct":
-                d[f"{pre}{o['name']}__vary_rounds"] = f"{k['varyV']}%" if rnd.random() < .5 else k["varyV"] * 0.01
+                d[vkey] = f"{k['varyV']}%" if rnd.random() < .5 else k["varyV"] * 0.01
         return d
 
     def parse(self, text):
